@@ -168,11 +168,11 @@ def mergeRow (r : List (Int × Int)) : List (Int × Int) :=
     | (c, v) :: tl => if c == e.1 then (c, v + e.2) :: tl else e :: acc
     | [] => [e]) []
 
-def checkMatT : Rd Verdict := do
+def checkMatT (pattern : Bool := false) : Rd Verdict := do
   let tap ← rdNat; let h ← rdHdr
   let ss ← rdPer h.np; let fs ← rdPer h.np
-  let feats := ["matT", tapName tap] ++ hdrFeats h
-  let base := s!"C03/matT/{tapName tap}"
+  let feats := ["matT", tapName tap] ++ (if pattern then ["pattern"] else []) ++ hdrFeats h
+  let base := s!"C03/matT/{tapName tap}" ++ (if pattern then "/pattern" else "")
   let sent := ss.map rowsOf          -- per rank: one row per off-process column
   for p in List.range h.np do
     let ln := h.fc.getD (p+1) 0 - h.fc.getD p 0
@@ -192,6 +192,7 @@ def run (op : String) (a : Array Int) : Verdict :=
     | "condT" => runRd (checkCond true) a
     | "mat" => runRd checkMat a
     | "matT" => runRd checkMatT a
+    | "matTp" => runRd (checkMatT true) a
     | _ => some (badCase s!"unknown op {op}")
   r.getD (badCase "malformed")
 
